@@ -78,6 +78,7 @@ class State:
         self.path = []        # human-readable branch decisions
         self.spec = False
         self.seen = set()     # definitional facts already assumed on this path (term-id keyed)
+        self.memo = {}        # pure array operations already evaluated on this path: key -> result
 
     def fork(self):
         s = State()
@@ -91,6 +92,7 @@ class State:
         s.spec = self.spec
         s.witness = getattr(self, "witness", {})
         s.seen = set(self.seen)
+        s.memo = dict(self.memo)
         if hasattr(self, "join_terms"):
             s.join_terms = list(self.join_terms)
         return s
@@ -706,7 +708,11 @@ class Exec:
             if isinstance(base.t, TSeq):
                 return SV(INT, self.seq_len(base))
         base = self.unwrap(st, self.ev(st, node.value), node, "subscripted object")
-        idx = self.ev(st, node.slice)
+        sl = node.slice
+        if isinstance(sl, ast.Tuple) and len(sl.elts) == 2 and isinstance(sl.elts[1], ast.Slice) and \
+                sl.elts[1].lower is None and sl.elts[1].upper is None and isinstance(base.t, TSeq):
+            sl = sl.elts[0]          # a[rows, :] on a 2-D array = row selection
+        idx = self.ev(st, sl)
         return self.subscript(st, base, idx, node)
 
     def subscript(self, st, base, idx, node=None):
@@ -1372,6 +1378,16 @@ class Exec:
                         names.append(ast.unparse(b) + ".sink")
                     except Exception:
                         pass
+                if isinstance(f, ast.Attribute):
+                    try:
+                        bname = ast.unparse(f.value)
+                    except Exception:
+                        bname = None
+                    bv = st.env.get(bname) if bname else None
+                    if bv is not None and isinstance(bv.t, TAbs):
+                        lc = self.registry.get("lib:%s.%s" % (bv.t.name, f.attr))
+                        if lc is not None and "self" in lc.modifies:
+                            names.append(bname)
                 callee = self.resolve_contract(ast.unparse(f))
                 if callee is not None and callee.modifies:
                     names += [m for m in callee.modifies if m.startswith("self.")]
